@@ -24,9 +24,10 @@ typedef struct Group Group; typedef struct ClipperOffset ClipperOffset;
 #define EXPECTED_ET(g, len) (((g)->end_type == EndType_Joined && (len) == 2) ? ((g)->join_type == JoinType_Round ? EndType_Round : EndType_Square) : (g)->end_type)
 size_t g_emits;        /* ghost: number of paths appended to the solution */
 /* ---- callee stubs (R15): index-safety preconditions taken from the callees' own bodies ---- */
+int g_sin_n, g_cos_n; double g_sin_ret, g_cos_ret;   /* ghost: the arc-step trigonometry has been evaluated */
 double vf_acos(double v) __CPROVER_requires(1) __CPROVER_ensures(1) __CPROVER_assigns();
-double vf_sin(double v) __CPROVER_requires(1) __CPROVER_ensures(1) __CPROVER_assigns();
-double vf_cos(double v) __CPROVER_requires(1) __CPROVER_ensures(1) __CPROVER_assigns();
+double vf_sin(double v) __CPROVER_requires(g_sin_n < 1000) __CPROVER_ensures(g_sin_n == __CPROVER_old(g_sin_n) + 1 && __CPROVER_return_value == g_sin_ret) __CPROVER_assigns(g_sin_n);
+double vf_cos(double v) __CPROVER_requires(g_cos_n < 1000) __CPROVER_ensures(g_cos_n == __CPROVER_old(g_cos_n) + 1 && __CPROVER_return_value == g_cos_ret) __CPROVER_assigns(g_cos_n);
 double vf_ceil(double v) __CPROVER_requires(1) __CPROVER_ensures(__CPROVER_return_value >= v) __CPROVER_assigns();
 Point64 vf_first_point(VTok path) __CPROVER_requires(path.size >= 1) __CPROVER_ensures(1) __CPROVER_assigns();
 VTok Ellipse(Point64 c, double rx, double ry, size_t steps) __CPROVER_requires(1) __CPROVER_ensures(1) __CPROVER_assigns();
@@ -79,19 +80,22 @@ __CPROVER_requires(__CPROVER_is_fresh(self, sizeof(*self)) && __CPROVER_is_fresh
 __CPROVER_requires(group->paths_in.size < ((size_t)1 << 40) && __CPROVER_is_fresh(group->paths_in.data, group->paths_in.size * sizeof(VTok)))
 __CPROVER_requires(ENUM_OK(group->end_type, EndType_Round) && ENUM_OK(group->join_type, JoinType_Miter) && self->deltaCallback64_ == NULL)
 __CPROVER_requires(!__CPROVER_isnand(self->delta_) && !__CPROVER_isinfd(self->delta_) && FABS_(self->delta_) >= 0.5 && self->delta_ == g_delta0)
-__CPROVER_requires(!__CPROVER_isnand(self->arc_tolerance_) && g_emits == 0)
+__CPROVER_requires(!__CPROVER_isnand(self->arc_tolerance_) && g_emits == 0 && g_sin_n == 0 && g_cos_n == 0 && !__CPROVER_isnand(g_sin_ret) && !__CPROVER_isnand(g_cos_ret) && !__CPROVER_isnand(self->step_sin_) && !__CPROVER_isnand(self->step_cos_))
 /* C06: sign of the group delta */
 __CPROVER_ensures(group->end_type == EndType_Polygon ==>
    self->group_delta_ == (group->is_reversed ? -(group->lowest_path_idx.has ? g_delta0 : FABS_(g_delta0)) : (group->lowest_path_idx.has ? g_delta0 : FABS_(g_delta0))))
 __CPROVER_ensures((group->end_type != EndType_Polygon && group->paths_in.size == 0) ==> self->group_delta_ == FABS_(g_delta0))
+/* C07/C06: whenever arcs will be drawn for this group - round joins OR round ends - the arc step is set up from this group's delta before any path is offset (rotation by step_sin_/step_cos_, its sense following the sign of the group delta) */
+#define ARCS (group->join_type == JoinType_Round || group->end_type == EndType_Round)
+__CPROVER_ensures(ARCS ==> (g_sin_n == 1 && g_cos_n == 1 && self->step_cos_ == g_cos_ret && self->step_sin_ == (self->group_delta_ < 0.0 ? -g_sin_ret : g_sin_ret)))
 /* C12/C07: nothing the next group or the next Execute depends on is left changed */
 __CPROVER_ensures(self->delta_ == g_delta0)
 __CPROVER_ensures(self->join_type_ == group->join_type)
-__CPROVER_assigns(self->delta_, self->group_delta_, self->join_type_, self->end_type_, self->step_sin_, self->step_cos_, self->steps_per_rad_, self->path_out, self->norms, g_emits)
+__CPROVER_assigns(self->delta_, self->group_delta_, self->join_type_, self->end_type_, self->step_sin_, self->step_cos_, self->steps_per_rad_, self->path_out, self->norms, g_emits, g_sin_n, g_cos_n)
 //@loop 1
 __CPROVER_assigns(path_in_it, self->end_type_, self->path_out, self->norms, self->group_delta_, abs_delta, g_emits)
 __CPROVER_loop_invariant(path_in_it <= group->paths_in.size)
-__CPROVER_loop_invariant(self->join_type_ == group->join_type && self->delta_ == g_delta0)
+__CPROVER_loop_invariant(self->join_type_ == group->join_type && self->delta_ == g_delta0 && self->step_sin_ == __CPROVER_loop_entry(self->step_sin_) && self->step_cos_ == __CPROVER_loop_entry(self->step_cos_))
 __CPROVER_loop_invariant(g_emits <= 2 * path_in_it)
 __CPROVER_loop_invariant(self->group_delta_ == __CPROVER_loop_entry(self->group_delta_))
 __CPROVER_loop_invariant(self->end_type_ == group->end_type || path_in_it > 0)
